@@ -312,6 +312,10 @@ func TestVerif(t *testing.T) {
 			for _, lbl := range []string{prefix + "-" + c.Pref + "-" + user, prefix + "-ed25519-" + user, "other-tool-alice"} {
 				vcSeedAgent(ag.Agent, lbl, lbl != "other-tool-alice" && strings.Contains(lbl, c.Pref))
 			}
+			// ... and the valid certificates of ANOTHER account that shares this agent, whose labels begin like ours
+			for _, lbl := range vcNeighbourLabels(prefix, c.Pref, user) {
+				vcSeedAgent(ag.Agent, lbl, false)
+			}
 			// ... and a second leftover under the main label (two overlapping earlier runs, or ssh-add of the fallback files)
 			vcSeedAgent(ag.Agent, prefix+"-"+c.Pref+"-"+user, false)
 			sock := filepath.Join(home, "agent.sock")
@@ -510,15 +514,29 @@ func TestVerif(t *testing.T) {
 					return n
 				}(),
 				"duplicateLabels": dupLabels, "otherToolKept": func() bool {
-					for _, l := range labels {
-						if l == "other-tool-alice" {
-							return true
+					if ag == nil {
+						return true
+					}
+					for _, want := range append([]string{"other-tool-alice"}, vcNeighbourLabels(prefix, c.Pref, user)...) {
+						kept := false
+						for _, l := range labels {
+							if l == want {
+								kept = true
+							}
+						}
+						if !kept {
+							return false
 						}
 					}
-					return ag == nil
+					return true
 				}(), "dbg": dbg, "wireBytes": func() int { t := 0; for _, w := range allWire { t += len(w) }; return t }()}})
 		n++
 		os.RemoveAll(home)
 	}
 	_ = fmt.Sprint
+}
+
+// labels of another account on the same agent that begin with this account's labels
+func vcNeighbourLabels(prefix, pref, user string) []string {
+	return []string{prefix + "-" + pref + "-" + user + "-admin", prefix + "-ed25519-" + user + "-admin"}
 }
